@@ -28,6 +28,10 @@ ASSUME = [
 def lex_like(ctx, prop, families, trace_count):
     ctx.build_harness()
     thorough = ctx.tier == "thorough"
+    # structured inputs from the program generator: sequences of well-formed and broken statements, statements, plants
+    progs = []
+    for cfg, ov in (("gen_stmtseq", {}), ("gen_statements", {"Bound": 4 if thorough else 3}), ("gen_plant", {}), ("gen_groups", {})):
+        progs.append(ctx.tlc("GenProg", cfg, overrides=ov, workers=4, timeout=3000)["out"])
     jobs = []
     for fam, (q, t) in families.items():
         def job(fam=fam, n=(t if thorough else q)):
@@ -42,10 +46,12 @@ def lex_like(ctx, prop, families, trace_count):
         ctx.load_result(fam + ".json")
     # code -> model: random byte strings and the repository's own queries
     ctx.harness("lex-trace", "--seed", ctx.seed, "--count", trace_count, "--corpus",
-                os.path.join(REPO, "testdata/Goldens"), "--trace", "trace.ndjson", "--inputs", "inputs.ndjson")
-    info = ctx.tlc("TraceLex", "trace_lex", workers=1, timeout=3000,
-                   env={"TRACE_FILE": ctx.path("trace.ndjson")})
-    ctx.harness("lex-trace-check", "--property", prop, "--inputs", "inputs.ndjson", "--verdicts", info["out"],
+                os.path.join(REPO, "testdata/Goldens"), "--programs", ",".join(progs),
+                "--trace", "trace.ndjson", "--inputs", "inputs.ndjson")
+    for f in progs:
+        os.unlink(f)
+    vouts = ctx.tlc_trace("TraceLex", "trace_lex", ctx.path("trace.ndjson"), chunks=12)
+    ctx.harness("lex-trace-check", "--property", prop, "--inputs", "inputs.ndjson", "--verdicts", ",".join(vouts),
                 "--out", "trace.json")
     tr = ctx.load_result("trace.json")
     return {
@@ -54,7 +60,9 @@ def lex_like(ctx, prop, families, trace_count):
         "coverage": {
             "rule": "every string over each family alphabet up to MaxLen characters is a terminal state of the lexer "
                     "machine (exhaustive); each is concretised with several byte representatives and scanned by the "
-                    "real code; plus random byte strings / test queries validated by TLC against LexRef. "
+                    "real code; plus random byte strings, the test queries, numeric literals at the edges of 64 bits and the texts of "
+                    "TLC-generated programs (sequences of well-formed and broken statements, statement lists, planted "
+                    "programs, bracket groups) validated by TLC against LexRef. "
                     "Non-trivial = at least one token.",
             "trace_records": tr["cases"],
             "trace_records_rejected_by_TLC": tr["checks"].get("trace_records_rejected_by_TLC", 0),
